@@ -209,6 +209,17 @@ func c08Run(c *Ctx) {
 			}
 		}
 	}
+	// 3h'. words that merely look reserved are ordinary names (exactly the 15 keywords are reserved)
+	for _, n := range plausibleWords {
+		if _, kw := ref.Keywords[n]; kw || n == "input" {
+			continue
+		}
+		for _, src := range []string{Var(n, "1") + " " + Print(n), Fun(n, "a", " "+Ret("a")+" ") + " " + Print(n+"(2)"), Fun("f", n, " "+Print(n)+" ") + " f(1);", "o = {" + n + ": 1}; o." + n + " = 2;"} {
+			if c.Mine() {
+				judge(&Case{Gen: "plausible-words", Src: src})
+			}
+		}
+	}
 	// 3h. names may start with an underscore, in every declaring and using position
 	for _, n := range []string{"_", "_x", "__", "_1", "_\u0995", "x_", "_tmp_2"} {
 		for _, src := range []string{Var(n, "1") + " " + Print(n), K["var"] + " a = 1, " + n + " = 2;", Fun(n, "", "") + " " + n + "();", Fun("f", n, " "+Print(n)+" ") + " f(1);", "o = {" + n + ": 1}; o." + n + " = 2;", For(Var(n, "0"), n+" < 1", n+" = "+n+" + 1", "{ }"), n + " = 1;", Fun("g", "a, "+n, " "+Ret("a")+" ")} {
@@ -509,7 +520,7 @@ func init() {
 		Run:         c08Run,
 		Judge:       c08Judge,
 		MustCount: func(c *Ctx) []string {
-			return []string{"accepted", "rejected_syntax", "rejected_lexical", "rejected_assign_target", "gen:nothing-runs", "gen:deep-nest", "gen:param-limit", "gen:reserved-names", "gen:assignment-targets", "gen:literal-forms", "gen:code-point-classes", "gen:statement-positions", "gen:separators", "gen:underscore-names", "gen:valid-but-failing-cli", "gen:file-edges-cli", "gen:long-lines-cli", "gen:many-constructs", "cli_rejected_clean", "gen:prefix-extension"}
+			return []string{"accepted", "rejected_syntax", "rejected_lexical", "rejected_assign_target", "gen:nothing-runs", "gen:deep-nest", "gen:param-limit", "gen:reserved-names", "gen:assignment-targets", "gen:literal-forms", "gen:code-point-classes", "gen:statement-positions", "gen:separators", "gen:underscore-names", "gen:plausible-words", "gen:valid-but-failing-cli", "gen:file-edges-cli", "gen:long-lines-cli", "gen:many-constructs", "cli_rejected_clean", "gen:prefix-extension"}
 		},
 	})
 }
